@@ -39,6 +39,12 @@ CHECKS["C16"] = dict(category="fault_enumeration", technique="exhaustive single-
 CHECKS["C10"] = dict(category="model_checking", technique="TLA+ E57Spec acceptance relation (ProtoVerdict, PointFits, call-order rules) checked by TLC trace validation of generated valid/invalid writer programs",
    text="Programs probing the acceptance relation of the specification (every subset of each attribute group, invalid-state type variants, type rules, duplicates, constant/full-range records, extension names, wrong arity/type, integers just outside their range at every bit phase, abandoned writers, second projection, image without representation, finalize twice, empty GUID) run on the real API; TLC requires every call to return Ok or Err as the relation says (never panic) and every completed file to decode and read back.",
    note=FILE_NOTE + " Name well-formedness is asserted by the generator; cases the documented rules do not settle are 'any'.", ref="6 C10")
+CHECKS["C04"] = dict(category="model_checking", technique="TLA+ E57Spec/E57Meta: abstract writer scene vs reader report, field by field, by TLC trace validation; transcribed E57 XML schema",
+   text="Setter programs (each optional field alone / all / none, setters twice and reset, every string position over the XML character domain incl. '<', '&', ']]>', whitespace-only, astral code points, every float position over -0, subnormal, MAX, inf, NaN, all four image representations with/without mask, extension URLs, limit overrides) run on the real writer and reader; TLC requires report = scene for every field, schema-conformant XML, and xml() = the file's XML bytes.",
+   note=FILE_NOTE + " NaN payloads canonicalised.", ref="6 C04")
+CHECKS["C14"] = dict(category="model_checking", technique="TLA+ E57Meta: exact bounds (IEEE-754 total order on bit limbs) and limit defaults computed by TLC from the recorded points, compared with what the reader reports",
+   text="Attribute-group subsets x coordinate types (single, double, scaled integers with dyadic positive and negative scale) x point sequences (empty, single, constant, monotone, sign-mixed with +-0, extremes; distinct extremes per axis at distinct indices): TLC computes min/max of the real values and of index attributes and requires the reported bounds to be present exactly for the groups in the prototype and equal; default limits = declared type range, complete overrides as given.",
+   note=FILE_NOTE + " Real values are mechanical conversions recorded by the harness (exact for the values used); NaN excluded.", ref="6 C14")
 NOT_APPLICABLE = {}
 
 def main():
